@@ -47,6 +47,33 @@ theorem frame_limit_tie : maxFrameDepth = 1024 := by decide
 theorem module_cache_key_tie :
     moduleCacheLookupKeys = ["name"] ∧ moduleCacheStoreKeys = ["name"] ∧ importerArgs = ["name"] := by decide
 
+/-- the steps of the repaired `vm.importModule` in source order, as `C14.importModule` has them:
+    cache lookup, then the cyclic-import guard BEFORE the importer is called (a refused import
+    opens no file), the module pushed on `vm.importing` before its code is evaluated, the store
+    into `vm.modules` after it -/
+theorem import_module_steps_tie :
+    importModuleSteps = ["lookup", "cyclic-guard", "importer.Import", "push", "eval", "store"] := by decide
+
+/-- the guard: a module found in `vm.importing` is refused with an import error (`St.refuse`,
+    outcome `.err`) -/
+theorem cyclic_import_guard_tie :
+    cyclicImportGuard = ["range vm.importing", "if importing == name",
+      "return nil, fmt.Errorf(\"import error: cyclic import of module %q\", name)"] := by decide
+
+/-- `vm.importing` is written in two places only, both in `importModule`: the push (`St.enter`)
+    and the pop of the deferred restore (`St.leave`); `vm.Clone` builds its struct literal
+    without the field (a clone starts with nothing being imported: `execStmt` `.spawnImp`) -/
+theorem importing_writes_tie :
+    importingWrites = ["vm.importing = append(vm.importing, name)",
+      "vm.importing = vm.importing[:len(vm.importing)-1]"] := by decide
+
+/-- the deferred frame restore of `importModule`: pop `vm.importing`, resume the importer's
+    frame, then drop everything above the importer's stack pointer — on success and on failure
+    (why `IRes` carries no residue and `fromLoop` pushes exactly one value per name) -/
+theorem import_restore_tie :
+    importDeferredRestore = ["vm.importing = vm.importing[:len(vm.importing)-1]",
+      "vm.resumeFrame(baseFP, baseIP, baseSP)", "for vm.sp > baseSP { vm.pop() }"] := by decide
+
 /-- `op.FromImport` asks for `parent/name`, then for `parent` (`requestedNames`, `fromLoop`) -/
 theorem from_import_names_tie :
     fromImportNames = ["filepath.Join(filepath.Join(from...), name)", "filepath.Join(from...)"] := by decide
